@@ -863,7 +863,13 @@ pub fn gen_cfg(rng: &mut Rng, kind: Kind) -> Cfg {
         history: 1 + rng.usize(10),
         max_idle: rng.usize(4),
         min_conf: *rng.pick(&[0.05f32, 0.1, 0.3]),
-        constraints: None,
+        // 30% of the configurations carry spatio-temporal constraints (binding or not, one or two add calls)
+        constraints: if rng.chance(0.3) {
+            let calls = 1 + rng.usize(2);
+            Some((0..calls).map(|_| (0..1 + rng.usize(3)).map(|_| (rng.usize(6), *rng.pick(&[0.3f32, 1.0, 3.0, 1.0e6]))).collect()).collect())
+        } else {
+            None
+        },
         wp: 1.0 / 20.0,
         wv: 1.0 / 160.0,
         vis: VisOpts {
